@@ -2,10 +2,10 @@ package rules
 
 import (
 	"fmt"
-	"sort"
 	"go/ast"
 	"go/token"
 	"go/types"
+	"sort"
 	"strings"
 
 	"verif/checker/cfgx"
@@ -175,13 +175,13 @@ func n2ExceptionFor(c *Ctx, pk *pkgT, fd *ast.FuncDecl) string {
 }
 
 type n2 struct {
-	c         *Ctx
-	content   *types.Var
-	notation  *types.Var
-	slot      *types.Var
-	unmarshal *types.Func
-	jsight    *types.Const
-	slotOK    bool
+	c           *Ctx
+	content     *types.Var
+	notation    *types.Var
+	slot        *types.Var
+	unmarshal   *types.Func
+	jsight      *types.Const
+	slotOK      bool
 	jsightSlots map[*types.Var]bool
 }
 
